@@ -280,6 +280,12 @@ func (tst *tsTable) flush(snapshot *snapshot, flushCh chan *flusherIntroduction)
 func (tst *tsTable) persistSnapshot(snapshot *snapshot) {
 	var partNames []string
 	for i := range snapshot.parts {
+		// A memory part has nothing on disk yet. Listing it would let a restart adopt the
+		// core part of a flush that crashed before its secondary-index parts and its own
+		// manifest were written: the spans would be served without their index entries.
+		if snapshot.parts[i].mp != nil {
+			continue
+		}
 		partNames = append(partNames, partName(snapshot.parts[i].ID()))
 	}
 	tst.mustWriteSnapshot(snapshot.epoch, partNames)
